@@ -725,6 +725,13 @@ class SymDT(_dtm.datetime):
 # --------------------------------------------------------------------------
 # generic helpers usable by harness oracles in both modes
 # --------------------------------------------------------------------------
+def neg(x):
+    """logical negation usable on SymBool and on plain bools"""
+    if isinstance(x, SymBool):
+        return ~x
+    return not bool(x)
+
+
 def is_sym(x):
     return isinstance(x, (SymBool, SymInt, SymReal, SymTD, SymDT))
 
